@@ -7,7 +7,7 @@
 #include <vector>
 #include "lib/ebus/symbol.h"
 #include "lib/ebus/result.h"
-#include "spec.h"
+#include "sym_spec.h"
 using namespace ebusd;
 using std::string;
 
